@@ -1,16 +1,20 @@
 PROPS["C20"] = {
     "streams": ["c20a", "c20w"], "retry_divergence": 2,
+    "audit": ["C20.lean", "C20Multi.lean"], "modules": ["GoDcp.Props.C20", "GoDcp.Props.C20Multi"],
     "timeout": 600,
     "design_ref": "DESIGN.md §7 C20, §6 F7",
     "rule": "L0 part: the real couchbase.NewAsyncOp(ctx) under a fake gocbcore.PendingOp. Deterministic scripts (imm/pre/mid/silent/late/precancel): "
             "model observation = real observation. Racy scripts (race/precancelpre/double): the real observation is checked by the Lean monitor for "
             "membership in the model's outcome set. Deadlines 20-50 ms (silent/late/race) or 1.5-2.5 s (others); delays random. Plus one ao-site line per "
-            "NewAsyncOp call site of couchbase/*.go (go/ast fact pass versus the Lean wrapper table). L2 part (stream c20w): every client wrapper against the "
-            "simulated node with per-request scripted behaviour. non-trivial = every case except script imm; distinct = distinct (op, observation) lines",
+            "NewAsyncOp call site of couchbase/*.go (go/ast fact pass versus the Lean wrapper table, including the SCOPE fact: is the asyncOp and its context created inside the "
+            "closure / loop body that issues the request (per-request) or outside it (shared by several requests)?). L2 part (stream c20w): every client wrapper against the "
+            "simulated node with per-request scripted behaviour; plus GetVBucketSeqNos against clusters of 2 and 3 KV nodes (w-seqnos-multi: all prompt / one node "
+            "error status / one node silent / all silent / one node late; model = n independent per-request asyncOps; return time classed against the hard-coded 60 s, "
+            "goroutines of the call counted 2 s after its return via pprof labels; these cases run in the background for the whole stream). non-trivial = every case except script imm; distinct = distinct (op, observation) lines",
     "assumptions": ["gocbcore invokes an operation's callback at most once, and not at all when the issuing call returned an error (hypothesis AtMostOnce)",
                     "model time: 'deadline passed' means the Go runtime has fired the ctx timer; real time enters only through the harness classes before/ontime/late (margin 1 s, deadlines <= 50 ms)",
                     "wrappers with context.Background() (cbMetadata.Load -> GetXattrs, waitFirstConfig) return by gocbcore's own deadline only (trusted)",
                     "at L0 the wrappers are tied syntactically (ao-site); their behaviour on the wire is the L2 stream"],
-    "level_text": "Kernel-checked theorems (Props/C20) over a transition system of asyncOp.Wait/Resolve and the wrapper pattern, for all schedules, deadlines and server behaviours: returns_by_deadline (after the deadline the caller needs at most 4 own steps and is never blocked), outcome_sound, never_success_unconfirmed (refuted for the GetVBucketSeqNos shape = finding F7, proved for the other 14 table rows), late_completion_harmless, cancel_on_timeout, holds_of_run (every model run passes the run-time monitor Spec.C20.holds). The model is tied to the real asyncOp by scripted differential runs with the monitor evaluated on the real observations, and to the 15 wrapper call sites by a go/ast fact pass checked against the Lean wrapper table.",
+    "level_text": "Kernel-checked theorems (Props/C20) over a transition system of asyncOp.Wait/Resolve and the wrapper pattern, for all schedules, deadlines and server behaviours: returns_by_deadline (after the deadline the caller needs at most 4 own steps and is never blocked), outcome_sound, never_success_unconfirmed (refuted for the GetVBucketSeqNos shape = finding F7, proved for the other 14 table rows), late_completion_harmless, cancel_on_timeout, holds_of_run (every model run passes the run-time monitor Spec.C20.holds). Calls that issue several requests (GetVBucketSeqNos, Props/C20Multi), for every number of requests: multi_independent (with one asyncOp per request each request's part of any schedule is a run of the single-operation system), multi_returns_by_deadline, multi_result_sound / multi_ok_iff (success iff every request was answered with success, otherwise one request's own error), multi_no_blocked_callback; the hoisted shape with ONE asyncOp for all requests is refuted (shared_op_hangs_refuted, shared_op_cancel_blocks_refuted). The model is tied to the real asyncOp by scripted differential runs with the monitor evaluated on the real observations, and to the 15 wrapper call sites by a go/ast fact pass checked against the Lean wrapper table.",
     "level_note": "partial (time): model time only; returns_by_deadline needs a ctx deadline and 2 call sites have none (gocbcore's own deadline trusted). partial (F7): GetVBucketSeqNos reports success on a server error. Trusted: Lean kernel, the LTS model of async_op.go, the scripted harness with wall-clock classes, gocbcore's callback-at-most-once contract",
 }
